@@ -466,7 +466,7 @@ func (c *cloner) table(t *replTable) *replTable {
 	if n, ok := c.tables[t]; ok {
 		return n
 	}
-	nt := &replTable{sender: t.sender, named: t.named, full: map[addr][]replVal{}, local: map[int][]replVal{}}
+	nt := &replTable{sender: t.sender, named: t.named, fault: t.fault, full: map[addr][]replVal{}, local: map[int][]replVal{}}
 	for k, v := range t.full {
 		nt.full[k] = append([]replVal(nil), v...)
 	}
